@@ -24,9 +24,9 @@ import (
 	"bufio"
 	"fmt"
 	"os"
-	"path/filepath"
 
 	"pault.ag/go/debian/dependency"
+	"pault.ag/go/debian/internal"
 )
 
 // Encapsulation for a debian/control file, which is a series of RFC2822-like
@@ -118,7 +118,7 @@ func (para *Paragraph) getOptionalDependencyField(field string) dependency.Depen
 // a pointer to a brand new Control struct, unless error is set to a value
 // other than nil.
 func ParseControlFile(path string) (ret *Control, err error) {
-	path, err = filepath.Abs(path)
+	path, err = internal.AbsPhysical(path)
 	if err != nil {
 		return nil, err
 	}
